@@ -24,6 +24,11 @@ def second_impl(val=0):
 def second_impl(val=0):
     pyscript.second_got = val
 """,
+    "duplicate alias": """
+@service("pyscript.second_only", "pyscript.second_only")
+def second_impl(val=0):
+    pyscript.second_got = val
+""",
     "later decorator invalid": """
 @service("pyscript.second_only")
 @state_trigger(1)
